@@ -293,6 +293,35 @@ static void play_history(xmp_context c, int budget_frames)
 
 	if (vrng_chance(25))
 		xmp_set_player(c, XMP_PLAYER_VOICES, vrng_range(1, 256));
+	/* event fuzz: a file can store any byte in any event field, in every format's
+	 * player mode: rewrite a few events of the loaded module (both effect lanes,
+	 * boundary parameters) before playing -- the player must survive any of them */
+	if (vrng_chance(35)) {
+		static const unsigned char bv[] = { 0, 1, 2, 0x0f, 0x10, 0x1f, 0x20, 0x3f, 0x40, 0x7f, 0x80, 0xf0, 0xfe, 0xff };
+		int k, n = vrng_range(1, 32);
+		xmp_get_module_info(c, &mi);
+		for (k = 0; k < n && mi.mod->trk > 0; k++) {
+			struct xmp_track *t = mi.mod->xxt[vrng_below(mi.mod->trk)];
+			struct xmp_event *ev;
+			if (t == NULL || t->rows <= 0)
+				continue;
+			ev = &t->event[vrng_chance(50) ? 0 : vrng_below(t->rows)];
+			if (vrng_chance(70)) {
+				ev->fxt = vrng_chance(60) ? (unsigned char)vrng_below(0x30) : (unsigned char)vrng_next();
+				ev->fxp = bv[vrng_below(sizeof(bv))];
+			}
+			if (vrng_chance(70)) {
+				ev->f2t = vrng_chance(60) ? (unsigned char)vrng_below(0x30) : (unsigned char)vrng_next();
+				ev->f2p = bv[vrng_below(sizeof(bv))];
+			}
+			if (vrng_chance(30)) {
+				ev->note = (unsigned char)vrng_next();
+				ev->ins = (unsigned char)vrng_next();
+				ev->vol = (unsigned char)vrng_next();
+			}
+		}
+		sink += 0x9e3779b97f4a7c15ULL;
+	}
 	if (xmp_start_player(c, rate, fmt) < 0)
 		return;
 	xmp_get_module_info(c, &mi);
